@@ -59,6 +59,9 @@ func c13Cells() []junkCell {
 		cells = append(cells, junkCell{Kind: k, Placement: "file"})
 	}
 	cells = append(cells, junkCell{Kind: "dupnetpol", Placement: "file", Fatal: true}, junkCell{Kind: "dupnetpol", Placement: "last", Fatal: true})
+	// a fatal conflict next to a severe (malformed) document, recorded before or after it: the fatal error must still win
+	cells = append(cells, junkCell{Kind: "dupnetpol+severe-before", Placement: "file", Fatal: true}, junkCell{Kind: "dupnetpol+severe-after", Placement: "file", Fatal: true},
+		junkCell{Kind: "badcidr+severe-before", Placement: "file", Fatal: true})
 	return cells
 }
 
@@ -66,7 +69,7 @@ func init() {
 	run.Register(&run.Check{
 		ID:    "C13",
 		Level: "fault_enumeration",
-		Rule: "fault enumeration: every (junk kind, placement) cell - 5 irrelevant kinds and 5 schema-conversion failures x {own file, first/middle/last document of a valid file}, 6 unreadable/malformed file kinds (two syntax errors, HTML, binary, dangling symlink, symlink loop), 5 harmless files (empty .yaml, .txt, .md, .png, non-manifest .json), a fatal duplicate-NetworkPolicy conflict - is applied to sampled valid worlds (case index mod number of cells picks the cell); " +
+		Rule: "fault enumeration: every (junk kind, placement) cell - 5 irrelevant kinds and 5 schema-conversion failures x {own file, first/middle/last document of a valid file}, 6 unreadable/malformed file kinds (two syntax errors, HTML, binary, dangling symlink, symlink loop), 5 harmless files (empty .yaml, .txt, .md, .png, non-manifest .json), a fatal duplicate-NetworkPolicy conflict alone and next to a severe document recorded before / after it, a fatal invalid CIDR next to a severe document - is applied to sampled valid worlds (case index mod number of cells picks the cell); " +
 			"oracles over paired real runs: list(valid+junk) = list(valid) point-wise, severe(with) - severe(without) >= injected bad items for list AND for diff with the junk in dir1, in dir2 and different junk on both sides, stop-on-error + severe => empty result or error on ConnlistFromDirPath, ConnlistFromResourceInfos and diff, fatal => error and no result for list and diff, diff(valid+junk, valid) has no added/removed/changed entry; " +
 			"non-trivial = the valid twin's report is non-empty and the cell injects a bad or fatal item; distinct = world hash + cell",
 		Assumptions:       []string{"a syntax error ends the decoding of its own file, so broken content is injected as whole files only", "an empty file and files without manifest extension are neither errors nor inputs"},
@@ -92,7 +95,7 @@ func runC13(c *run.Ctx) {
 	} else {
 		w = world.GenNPWorld(g, cfg)
 	}
-	if cell.Kind == "dupnetpol" && len(w.NetPols) == 0 {
+	if strings.HasPrefix(cell.Kind, "dupnetpol") && len(w.NetPols) == 0 {
 		w.NetPols = append(w.NetPols, world.GenNetPol(g, w, cfg, w.Workloads[0].Ns, "np0"))
 	}
 	r.Hash = w.Hash() + "/" + cell.Kind + "/" + cell.Placement
@@ -110,6 +113,29 @@ func runC13(c *run.Ctx) {
 	junkName := ""
 	injected := 0
 	switch {
+	case strings.Contains(cell.Kind, "+severe"):
+		// fatal item and a malformed document in separate files; file names order the scan
+		if err := world.WriteDocs(junk, jdocs, world.LayoutCanonial, nil); err != nil {
+			r.Discarded = err.Error()
+			return
+		}
+		var fatalY string
+		if strings.HasPrefix(cell.Kind, "dupnetpol") {
+			np := w.NetPols[0]
+			np.Ingress, np.Egress = nil, nil
+			fatalY = world.NetPolYAML(&np)
+		} else {
+			np := world.NetPol{Ns: w.Workloads[0].Ns, Name: "bad-cidr", Ingress: []world.NPRule{{Peers: []world.NPPeer{{IPBlock: &world.IPB{CIDR: "10.0.0.0/33"}}}}}}
+			fatalY = world.NetPolYAML(&np)
+		}
+		sevName, fatName := "aa-severe.yaml", "zz-fatal.yaml"
+		if strings.HasSuffix(cell.Kind, "severe-after") {
+			sevName, fatName = "zz-severe.yaml", "aa-fatal.yaml"
+		}
+		_ = os.WriteFile(filepath.Join(junk, sevName), []byte(rng.Pick(g, []string{junkDocs["badpod"], junkDocs["badnetpol"], junkFiles["syntax"]})), 0o644)
+		_ = os.WriteFile(filepath.Join(junk, fatName), []byte(fatalY), 0o644)
+		junkName = fatName
+		injected = 1
 	case junkDocs[cell.Kind] != "" || cell.Kind == "dupnetpol":
 		y := junkDocs[cell.Kind]
 		if cell.Kind == "dupnetpol" {
@@ -190,6 +216,15 @@ func runC13(c *run.Ctx) {
 			if stop {
 				res = observe.List(junk, observe.ListOpts{StopOnError: true, ViaInfos: true})
 			}
+			// with stop-on-error a severe document recorded first ends the analysis before the conflict is ever seen:
+			// then an empty result without error is what the statement asks for
+			stoppedEarlier := stop && strings.Contains(cell.Kind, "+severe")
+			if stoppedEarlier {
+				if len(res.Entries) > 0 {
+					r.Violate("c13.stop", "c13.stop:"+cell.Kind+":partial-report", "no connections with stop-on-error and a severe error", fmt.Sprintf("%d entries", len(res.Entries)), tag)
+				}
+				continue
+			}
 			if !res.HasErr || len(res.Entries) > 0 {
 				r.Violate("c13.fatal", "c13.fatal:"+cell.Kind+":result-or-no-error", "an error and no result on a fatal conflict",
 					fmt.Sprintf("error=%q entries=%d (stopOnError=%v)", res.Err, len(res.Entries), stop), tag)
@@ -199,12 +234,23 @@ func runC13(c *run.Ctx) {
 			}
 		}
 		for _, stop := range []bool{false, true} {
-			d := observe.Diff(junk, valid, observe.DiffOpts{StopOnError: stop})
-			if d.Panic != "" {
-				r.Violate("c13.total", "c13.total:any:panic", "a result or an error", "panic: "+d.Panic, tag)
-			} else if !d.HasErr || len(d.Entries) > 0 {
-				r.Violate("c13.fatal", "c13.fatal:"+cell.Kind+":diff-result-or-no-error", "an error and no diff on a fatal conflict",
-					fmt.Sprintf("error=%q entries=%d (stopOnError=%v)", d.Err, len(d.Entries), stop), tag)
+			for _, side := range []string{"dir1", "dir2"} {
+				d1, d2 := junk, valid
+				if side == "dir2" {
+					d1, d2 = valid, junk
+				}
+				d := observe.Diff(d1, d2, observe.DiffOpts{StopOnError: stop})
+				r.Ev("fatal_diff_runs", 1)
+				if d.Panic != "" {
+					r.Violate("c13.total", "c13.total:any:panic", "a result or an error", "panic: "+d.Panic, tag)
+				} else if stop && strings.Contains(cell.Kind, "+severe") {
+					if len(d.Entries) > 0 {
+						r.Violate("c13.stop", "c13.stop:"+cell.Kind+":partial-diff", "no diff entries with stop-on-error and a severe error", fmt.Sprintf("%d entries", len(d.Entries)), tag)
+					}
+				} else if !d.HasErr || len(d.Entries) > 0 {
+					r.Violate("c13.fatal", "c13.fatal:"+cell.Kind+":diff-result-or-no-error", "an error and no diff on a fatal conflict",
+						fmt.Sprintf("error=%q entries=%d (stopOnError=%v, fatal item in %s)", d.Err, len(d.Entries), stop, side), tag)
+				}
 			}
 		}
 		return
